@@ -420,7 +420,16 @@ pub enum Pipeline {
     /// Tokenizer<Rec<PolicySink>>
     Tok { policy: u64, initial_state: Option<String>, last_start_tag: Option<String> },
     /// Tokenizer<Rec<TreeBuilder<H, ModelSink>>>
-    Tree { context: Option<(String, String)>, ctx_scripting: bool, attach_ok: bool, allow_shadow: bool },
+    Tree {
+        context: Option<(String, String)>,
+        ctx_scripting: bool,
+        attach_ok: bool,
+        allow_shadow: bool,
+        /// go through html5ever::driver (Parser + TendrilSink::process / finish): pauses are hidden
+        driver: bool,
+        /// fragment parsing with a form element pointer supplied by the embedder
+        with_form: bool,
+    },
 }
 
 #[derive(Clone, Debug, PartialEq, Eq)]
@@ -436,10 +445,11 @@ impl HtmlCase {
         let pipeline = match &self.pipeline {
             Pipeline::Tok { policy, initial_state, last_start_tag } => json!({
                 "kind": "tok", "policy": policy.to_string(), "initial_state": initial_state, "last_start_tag": last_start_tag }),
-            Pipeline::Tree { context, ctx_scripting, attach_ok, allow_shadow } => json!({
+            Pipeline::Tree { context, ctx_scripting, attach_ok, allow_shadow, driver, with_form } => json!({
                 "kind": "tree",
                 "context": context.as_ref().map(|(n, l)| json!({"ns": n, "local": l})),
-                "ctx_scripting": ctx_scripting, "attach_ok": attach_ok, "allow_shadow": allow_shadow }),
+                "ctx_scripting": ctx_scripting, "attach_ok": attach_ok, "allow_shadow": allow_shadow,
+                "driver": driver, "with_form": with_form }),
         };
         json!({"input": self.input, "opts": self.opts.to_json(), "pipeline": pipeline, "schedule": self.schedule.to_json()})
     }
@@ -465,6 +475,8 @@ impl HtmlCase {
                 ctx_scripting: p["ctx_scripting"].as_bool().unwrap_or(true),
                 attach_ok: p["attach_ok"].as_bool().unwrap_or(false),
                 allow_shadow: p["allow_shadow"].as_bool().unwrap_or(true),
+                driver: p["driver"].as_bool().unwrap_or(false),
+                with_form: p["with_form"].as_bool().unwrap_or(false),
             }
         };
         HtmlCase {
@@ -529,6 +541,7 @@ pub struct RunObs {
     pub sink: Option<ModelSink>,
     pub forwarded_line_mismatch: Option<String>,
     pub digest: u64,
+    pub is_driver: bool,
 }
 
 pub struct CollectTracer {
@@ -779,7 +792,7 @@ pub fn run_html(case: &HtmlCase, record_calls: bool, emulate_never_mirror: bool)
             let sink = d.tok.sink;
             finish_obs(sink.recs.into_inner(), pauses, feed_results, qne, sink.eof_count.get(), sink.after_eof.get(), sink.end_calls.get(), &probe, stats, None, None)
         },
-        Pipeline::Tree { context, ctx_scripting, attach_ok, allow_shadow } => {
+        Pipeline::Tree { context, ctx_scripting, attach_ok, allow_shadow, driver, with_form } => {
             let policy = SinkPolicy {
                 attach_ok: *attach_ok,
                 allow_shadow: *allow_shadow,
@@ -787,6 +800,33 @@ pub fn run_html(case: &HtmlCase, record_calls: bool, emulate_never_mirror: bool)
                 emulate_never_mirror,
             };
             let sink = ModelSink::new(policy, Some(probe.clone()), false);
+            if *driver {
+                // the high-level driver: Parser + TendrilSink; suspensions are looped over inside
+                use tendril::stream::TendrilSink;
+                let opts = html5ever::driver::ParseOpts { tokenizer: case.opts.tok_opts(), tree_builder: case.opts.tb_opts() };
+                let mut parser = match context {
+                    None => html5ever::driver::parse_document(sink, opts),
+                    Some((nsname, local)) => {
+                        let name = QualName::new(None, ns_from(nsname), LocalName::from(&**local));
+                        html5ever::driver::parse_fragment(sink, opts, name, vec![], *ctx_scripting)
+                    },
+                };
+                let (chunks, _keep) = make_chunks(&case.input, &case.schedule);
+                let mut stats = RunStats::default();
+                let mut logical = String::new();
+                for ch in chunks {
+                    stats.chunks += 1;
+                    stats.events += 1;
+                    logical.push_str(&ch);
+                    parser.process(ch);
+                }
+                stats.events += 1;
+                let model = parser.finish();
+                let mut obs = finish_obs(vec![], vec![], vec![], None, 1, 0, 1, &probe, stats, Some(model), None);
+                obs.logical = logical;
+                obs.is_driver = true;
+                return obs;
+            }
             let mutations = sink.mutations.clone();
             let last_line = sink.last_line.clone();
             let calls_len = sink.calls_len.clone();
@@ -796,7 +836,12 @@ pub fn run_html(case: &HtmlCase, record_calls: bool, emulate_never_mirror: bool)
                 Some((nsname, local)) => {
                     let name = QualName::new(None, ns_from(nsname), LocalName::from(&**local));
                     let ctx = create_element(&sink, name, vec![]);
-                    let tb = TreeBuilder::new_for_fragment(sink, ctx, None, case.opts.tb_opts());
+                    let form = if *with_form {
+                        Some(create_element(&sink, QualName::new(None, markup5ever::ns!(html), LocalName::from("form")), vec![]))
+                    } else {
+                        None
+                    };
+                    let tb = TreeBuilder::new_for_fragment(sink, ctx, form, case.opts.tb_opts());
                     topts.initial_state = Some(tb.tokenizer_state_for_context_elem(*ctx_scripting));
                     tb
                 },
@@ -871,6 +916,7 @@ fn finish_obs(
         sink,
         forwarded_line_mismatch: flm,
         digest: dg,
+        is_driver: false,
     }
 }
 
